@@ -4,6 +4,7 @@ pub enum CEffect {
     DisableBuffering,
     Data { id: u32, bytes: Seq<u8> },          // session.write_data_frame(id, bytes) accepted
     CloseWithError { id: u32 },                // stream.close_with_error(..)
+    Fin { id: u32 },                           // stream.send_fin(): the end of the stream announced to the peer
     Released,                                  // the session went back to the pool (Client::release_session, under contract in group `reuse`)
 }
 pub struct RecvError;
@@ -31,6 +32,8 @@ impl Stream {
     pub fn close_with_error(&self, err: AnyTlsError, fx: &mut Ghost<Seq<CEffect>>)
         ensures final(fx)@ == old(fx)@.push(CEffect::CloseWithError { id: self.id })
     { unimplemented!() }
+    #[verifier::external_body]
+    pub fn send_fin(&self, fx: &mut Ghost<Seq<CEffect>>) ensures final(fx)@ == old(fx)@.push(CEffect::Fin { id: self.id }) { }
 }
 pub struct Session { pub ghost sid: int }
 impl Session {
